@@ -75,6 +75,20 @@ def pipeline(ctx, fresh=True):
     head = rest[: n * 2]
     ctx.rng.shuffle(head)
     sample = uniform + head[: n - n // 2]
+    # always include the histories in which an asset that lists the same ingredient twice is read asynchronously by a context
+    # that lacks the signer's anchors (the current validation of the ingredient then differs from the recorded one)
+    def dup_lean_async(v):
+        ops = v["ops"]
+        made = [o for o in ops if o["op"] in ("S", "T")]
+        for o in ops:
+            if o["op"] == "R" and o["fl"] == "async" and o["arch"] == 1 and o["i"] <= len(made):
+                m = made[o["i"] - 1]
+                if m["op"] == "S" and len(m["ings"]) == 2 and m["ings"][0] == m["ings"][1] and m["ings"][0] != 0:
+                    return True
+        return False
+    have = {json.dumps(v["ops"]) for v in sample}
+    directed = [v for v in vecs if dup_lean_async(v) and json.dumps(v["ops"]) not in have]
+    sample += directed[:40 if ctx.quick else 400]
     # longer histories and longer archive chains from simulation (thorough)
     if not ctx.quick:
         try:
@@ -166,6 +180,11 @@ def pipeline(ctx, fresh=True):
                 if t and t[1]["completed"] and i < len(t[1]["assets"]) and t[1]["assets"][i].get(field) != d.get(field):
                     where = diff_paths(v, t[0], i, field)
                     findings.append((pp, "%s:%s" % (label, where), "asset %d: the normalised report differs from the one produced %s (differing parts: %s; format %s)" % (i + 1, "without archive round trips" if tw == "plain" else "through the synchronous entry points", where, made.get("fmt", "?")), dict(case, twin=tw, differs_at=where)))
+        ts = by.get((v["id"], "sync"))
+        if ts and ts[1]["completed"] and len(ts[1]["steps"]) == len(o["steps"]):
+            for s1, s2 in zip(o["steps"], ts[1]["steps"]):
+                if s1["op"] == "R" and s2["op"] == "R" and s1.get("fl") == "async" and s1.get("norm") != s2.get("norm"):
+                    findings.append(("C40", "async-read-differs:profile%s" % s1.get("profile"), "reading asset %d through with_stream_async reports something else than with_stream (same history, same context settings)" % s1["i"], dict(case0, step={k: s1.get(k) for k in ("i", "fl", "profile", "state")}, sync_state=s2.get("state"))))
         for f in o["ing_facts"]:
             if f["a"] > 0:
                 d = o["assets"][f["parent"] - 1]
